@@ -25,23 +25,23 @@ VERIF = os.path.dirname(os.path.dirname(os.path.abspath(__file__)))
 JSON_PATH = os.path.join(VERIF, "cmath_bounds.json")
 
 DOMAINS = {
-    "sqrt": "x in [denorm_min, max]",
-    "exp": "|x| <= 80 (float) / 700 (double), down to |x| = 1e-30 / 1e-300",
-    "log": "x in [denorm_min, max]", "log2": "x in [denorm_min, max]", "log10": "x in [denorm_min, max]",
-    "log1p": "x in (-1, max]",
-    "pow": "base in [1/64, 64] (negative bases with integer exponents), exponent in [-20, 20]; pow(x, int) too",
-    "sin": "|x| <= 100", "cos": "|x| <= 100", "tan": "|x| <= 100",
-    "asin": "|x| <= 1", "acos": "|x| <= 1", "atan": "all finite x",
-    "atan2": "finite non-zero y, x with binary exponents in [-60, 60] (float) / [-500, 500] (double), all quadrants",
-    "sinh": "|x| <= 80 (float) / 700 (double)", "cosh": "|x| <= 80 (float) / 700 (double)", "tanh": "all finite x",
-    "asinh": "all finite x", "acosh": "x in [1, max]", "atanh": "|x| < 1",
-    "erf": "|x| <= 10",
-    "tgamma": "x in (0, 34] (float) / (0, 170] (double) and non-integer x in [-20, -0.001]",
-    "lgamma": "x in (0, 1e30] (float) / (0, 1e300] (double) and non-integer x in [-20, -0.001]; error in ulps of max(|result|, 1)",
-    "hypot": "finite non-zero arguments with binary exponents in [-60, 60] (float) / [-500, 500] (double); hypot(x,y,z): [-40, 40] / [-300, 300], reference sqrtl of the long double sum",
+    "sqrt": "x in [denorm_min, max] (every exponent incl. subnormals)",
+    "exp": "x in [-110, 110] (float) / [-800, 800] (double): across the overflow (88.72 / 709.78) and underflow (-87.3, -103.97 / -708.4, -745.13) thresholds, plus log-uniform |x| down to denorm_min",
+    "log": "x in [denorm_min, max] (every exponent incl. subnormals)", "log2": "x in [denorm_min, max] (every exponent incl. subnormals)", "log10": "x in [denorm_min, max] (every exponent incl. subnormals)",
+    "log1p": "x in [-1, max] (every exponent incl. subnormals)",
+    "pow": "base in [1/64, 64] with exponent in [-20, 20] (negative bases with integer exponents; pow(x, int) too); any positive base with an exponent that puts the result at 2^t, t across the overflow / underflow thresholds; bases 1 +- 2^-k with huge exponents; any finite base x any finite exponent (huge even / odd / non-integers); Annex F cross product",
+    "sin": "every finite x: log-uniform over all exponents up to max (float and double), uniform in [-100, 100], and the +-2 ulp neighbourhoods of k*pi/2 for k up to 2^40 (float) / 2^70 (double)", "cos": "every finite x: log-uniform over all exponents up to max (float and double), uniform in [-100, 100], and the +-2 ulp neighbourhoods of k*pi/2 for k up to 2^40 (float) / 2^70 (double)", "tan": "every finite x: log-uniform over all exponents up to max (float and double), uniform in [-100, 100], and the +-2 ulp neighbourhoods of k*pi/2 for k up to 2^40 (float) / 2^70 (double)",
+    "asin": "|x| <= 1, every exponent incl. subnormals", "acos": "|x| <= 1, every exponent incl. subnormals", "atan": "every finite x incl. subnormals",
+    "atan2": "finite non-zero y, x over every exponent incl. subnormals, all quadrants, nearly equal magnitudes; Annex F cross product",
+    "sinh": "|x| <= 92 (float) / 715 (double): up to and across the overflow thresholds 89.416 / 710.476, down to denorm_min", "cosh": "|x| <= 80 (float) / 700 (double) - still gcem's (exp(x)+exp(-x))/2 at run time on this tree, which overflows from 88.72 / 709.78 on, so the domain stops before that", "tanh": "every finite x incl. subnormals",
+    "asinh": "every finite x incl. subnormals", "acosh": "x in [1, max]", "atanh": "|x| < 1, every exponent incl. subnormals",
+    "erf": "every finite x incl. subnormals",
+    "tgamma": "x in (0, 36] (float) / (0, 172] (double) incl. subnormals (across the overflow thresholds 35.04 / 171.62), negative non-integers down to -45 / -185 (underflow) and up to -denorm_min",
+    "lgamma": "every positive x incl. subnormals up to max (overflow to inf included), negative x over every exponent (non-integers in [-50, 0), poles beyond); error in ulps of max(|result|, 1)",
+    "hypot": "finite non-zero arguments whose squares stay in the normal range (binary exponents in [-62, 62] float / [-510, 510] double; beyond that is the class C16.hypot.naive, sampled over every exponent unless excluded); hypot(x,y,z): [-60, 60] / [-505, 505], reference sqrtl of the long double sum",
     "lerp": "finite a, b (exponents within +-60 / +-500), t in [0, 1]; error against the exactly rounded a + t(b - a) in ulps of max(|a|, |b|)",
 }
-COMPLEX_DOMAIN = "|re|, |im| <= 8: grid with step 1/4, uniform random points, components with log-uniform magnitude 2^-20..8, points next to zeros of sin/cos, |z|^2 around epsilon, rings around z = 1; norm-wise error max(|d re|, |d im|) / ulp(max(|re|, |im|, abs_floor)) of the glibc result"
+COMPLEX_DOMAIN = "|re|, |im| <= 8 (sin/cos/tan: |re| up to max, sinh/cosh/tanh: |im| up to max, polar: |theta| up to max - every exponent and neighbourhoods of k*pi/2 for huge k): grid with step 1/4, uniform random points, components with log-uniform magnitude 2^-20..8, points next to zeros of sin/cos, |z|^2 around epsilon, rings around z = 1; norm-wise error max(|d re|, |d im|) / ulp(max(|re|, |im|, abs_floor)) of the glibc result"
 FLOORS = {"lgamma": 1.0, "complex.log": 0.0078125, "complex.log10": 0.0078125}
 
 
